@@ -5,6 +5,7 @@ package main
 import (
 	"fmt"
 	"go/token"
+	"go/types"
 	"os"
 	"strings"
 
@@ -35,6 +36,8 @@ func runC08(c *Ctx) {
 	ruleEqualityForSuccess(c, "R08.e")
 	ruleStartRegistersSecret(c, "R08.f")
 	ruleNoSharedCapture(c, "R08.g")
+	ruleAuthenticatorListOwnership(c, "R08.h")
+	ruleAuthenticatorsReadOnly(c, "R08.i")
 	c.assume("string == compares all bytes; the authenticator registry may be extended by the application")
 }
 
@@ -885,6 +888,7 @@ func runC09(c *Ctx) {
 	ruleLeafCommonName(c, "R09.c")
 	ruleAcceptLoops(c, "R09.d")
 	ruleOwnListenerOnly(c, "R09.e")
+	ruleAuthenticatorListOwnership(c, "R09.f")
 	ruleCloseOnEveryExit(c, "R19.a")
 	c.assume("crypto/tls performs X.509 path validation and expiry checks for RequireAndVerifyClientCert; an application-supplied tls.Config (ConfigTLSConfig) replaces the generated one")
 }
@@ -1444,4 +1448,157 @@ func nilMeansAuthenticated(h *ssa.Function) bool {
 		}
 	}
 	return any
+}
+
+// ruleAuthenticatorListOwnership: the certificate rules and password rules the application
+// registers live in one list. The framework itself must only ever add to it: a framework
+// function that clears or replaces the list (say, on Start or Restart) silently drops the
+// certificate rule, after which the TLS gate admits any certificate of the right CA.
+func ruleAuthenticatorListOwnership(c *Ctx, rid string) {
+	c.rule(rid, "who-may-write: the authenticator list of auth.AuthManager is stored to only by its constructor, by AddAuthenticator (append of the old list and the argument) and by ClearAuthenticators; no framework function calls ClearAuthenticators or otherwise shrinks the list")
+	clearName := "(*" + pkgAuth + ".AuthManager).ClearAuthenticators"
+	n, bad := 0, 0
+	for _, fn := range c.P.RepoFuncs(modPath) {
+		if !inProd(fn) || !inFramework(fn) {
+			continue
+		}
+		allInstrs(fn, func(ins ssa.Instruction) {
+			if cc := callCommon(ins); cc != nil {
+				nme := calleeName(cc)
+				if nme == clearName || (cc.IsInvoke() && cc.Method.Name() == "ClearAuthenticators") {
+					n++
+					bad++
+					c.bad(rid, fmt.Sprintf("%s/clears-authenticators", c.P.key(fn)), c.P.instrPos(ins), "the framework clears the authenticator list: rules registered by the application (client-certificate common names) are dropped and the TLS gate admits every certificate of the CA")
+				}
+			}
+			st, ok := ins.(*ssa.Store)
+			if !ok {
+				return
+			}
+			owner, f, _, ok := fieldOf(st.Addr)
+			if !ok || owner != "auth.AuthManager" || f != "authenticators" {
+				return
+			}
+			n++
+			okStore := false
+			switch {
+			case fn.Name() == "ClearAuthenticators" && fnPkgPath(fn) == pkgAuth:
+				okStore = true
+			case fn.Signature.Recv() == nil && fnPkgPath(fn) == pkgAuth:
+				okStore = true // constructor
+			default:
+				// append(old list, parameter)
+				if call, ok := strip(st.Val).(*ssa.Call); ok {
+					if b, ok := call.Common().Value.(*ssa.Builtin); ok && b.Name() == "append" && len(call.Common().Args) == 2 {
+						if _, f2, _, ok := fieldOf(call.Common().Args[0]); ok && f2 == "authenticators" {
+							okStore = true
+						}
+					}
+				}
+			}
+			if !okStore {
+				bad++
+				c.bad(rid, fmt.Sprintf("%s/authenticators-store", c.P.key(fn)), c.P.instrPos(st), "the authenticator list is replaced outside AddAuthenticator/ClearAuthenticators/the constructor")
+			}
+		})
+	}
+	c.count("authenticator-list-writes", n)
+	c.floor("authenticator-list-writes", 2)
+	if bad == 0 {
+		c.ok(rid, "authenticator-list", "", "the list is only appended to by AddAuthenticator; nothing in the framework clears it")
+	}
+}
+
+// ruleAuthenticatorsReadOnly: AuthManager.Authenticate runs the registered authenticators under
+// its read lock, so the AUTH commands (and TLS admissions) of different connections execute them
+// concurrently. An authenticator therefore must not keep per-request scratch state in itself:
+// no store to a field of its receiver, and no state-changing method invoked on a value held in
+// one of its fields (a shared hash.Hash, buffer, scanner, ...), anywhere below Authenticate.
+func ruleAuthenticatorsReadOnly(c *Ctx, rid string) {
+	c.rule(rid, "every Authenticate method of package auth, and every method of the same receiver it calls, neither stores into a field of the receiver nor invokes a mutating method (Write, Reset, Read, Set*, Add*, Store, Delete, ...) on a value loaded from a receiver field: concurrent authentications share the authenticator object")
+	mutating := func(name string) bool {
+		for _, p := range []string{"Write", "Reset", "Read", "Set", "Add", "Store", "Delete", "Push", "Pop", "Seek", "Scan", "Next", "Grow", "Truncate", "Swap", "Insert", "Remove", "Append"} {
+			if strings.HasPrefix(name, p) {
+				return true
+			}
+		}
+		return false
+	}
+	n := 0
+	for _, fn := range c.P.RepoFuncs(pkgAuth) {
+		if fnPkgPath(fn) != pkgAuth || fn.Name() != "Authenticate" || fn.Signature.Recv() == nil || fn.Blocks == nil {
+			continue
+		}
+		if strings.HasSuffix(fn.Signature.Recv().Type().String(), "AuthManager") {
+			continue // the manager itself: its list is guarded by the lock (R08.h, C14)
+		}
+		n++
+		c.analysed(fn)
+		key := fnName(fn) + "/read-only"
+		bad := ""
+		seen := map[*ssa.Function]bool{}
+		var scan func(f *ssa.Function, recv *ssa.Parameter, depth int)
+		scan = func(f *ssa.Function, recv *ssa.Parameter, depth int) {
+			if seen[f] || depth > 4 || f.Blocks == nil || recv == nil {
+				return
+			}
+			seen[f] = true
+			fromRecv := func(v ssa.Value) bool {
+				// an address or value reached from the receiver through field selections/loads
+				for d := 0; d < 6 && v != nil; d++ {
+					switch x := v.(type) {
+					case *ssa.Parameter:
+						return x == recv
+					case *ssa.FieldAddr:
+						v = x.X
+					case *ssa.UnOp:
+						v = x.X
+					case *ssa.IndexAddr:
+						v = x.X
+					default:
+						return false
+					}
+				}
+				return false
+			}
+			allInstrs(f, func(ins ssa.Instruction) {
+				switch x := ins.(type) {
+				case *ssa.Store:
+					if fromRecv(x.Addr) {
+						bad = fmt.Sprintf("%s stores into its authenticator at %s", fnName(f), c.P.instrPos(x))
+					}
+				case *ssa.MapUpdate:
+					if fromRecv(x.Map) {
+						bad = fmt.Sprintf("%s updates a map of its authenticator at %s", fnName(f), c.P.instrPos(x))
+					}
+				case ssa.CallInstruction:
+					cc := x.Common()
+					if cc.IsInvoke() {
+						if fromRecv(cc.Value) && mutating(cc.Method.Name()) {
+							bad = fmt.Sprintf("%s calls %s on a value kept in the authenticator at %s: that state is shared by all connections authenticating at the same time", fnName(f), cc.Method.Name(), c.P.instrPos(ins))
+						}
+						return
+					}
+					cal := staticCallee(cc)
+					if cal == nil || len(cc.Args) == 0 {
+						return
+					}
+					if cal.Signature.Recv() != nil && fromRecv(cc.Args[0]) {
+						if inRepo(cal) && len(cal.Params) > 0 {
+							// a method of the authenticator itself (or of an object it holds)
+							scan(cal, cal.Params[0], depth+1)
+						} else if mutating(cal.Name()) {
+							if _, isPtr := cal.Signature.Recv().Type().Underlying().(*types.Pointer); isPtr {
+								bad = fmt.Sprintf("%s calls %s on a value kept in the authenticator at %s", fnName(f), fnName(cal), c.P.instrPos(ins))
+							}
+						}
+					}
+				}
+			})
+		}
+		scan(fn, fn.Params[0], 0)
+		c.check(bad == "", rid, key, c.P.pos(fn.Pos()), "the authenticator is only read while authenticating", bad)
+	}
+	c.count("authenticator-implementations", n)
+	c.floor("authenticator-implementations", 2)
 }
